@@ -332,6 +332,22 @@ func runVec(rep *Report, v *Vec, rng *rand.Rand) {
 func Table(seed int64, writers, readers, rounds int) []Mismatch {
 	var mms []Mismatch
 	var mu sync.Mutex
+	// what Format handed out (a sink is writing it) stays what it was when the key is written again
+	for _, pair := range [][2]string{{"first value, rather long: 0123456789", "second"}, {"{\"a\":1,\"b\":\"xxxxxxxx\"}\n", "{\"a\":1}\n"}, {"short", "a much longer second value 0123456789"}} {
+		e0 := &eventlogger.Event{}
+		first := []byte(pair[0])
+		e0.FormattedAs("k", first)
+		got1, _ := e0.Format("k")
+		keep := append([]byte{}, got1...)
+		e0.FormattedAs("k", []byte(pair[1]))
+		got2, _ := e0.Format("k")
+		if !bytes.Equal(got1, keep) || string(first) != pair[0] {
+			mms = append(mms, Mismatch{What: "bytes handed out by Format (or given to FormattedAs) changed when the same key was written again", Expected: pair[0], Observed: string(got1)})
+		}
+		if string(got2) != pair[1] {
+			mms = append(mms, Mismatch{What: "last writer does not win", Expected: pair[1], Observed: string(got2)})
+		}
+	}
 	e := &eventlogger.Event{}
 	var wg sync.WaitGroup
 	stop := make(chan struct{})
